@@ -26,7 +26,9 @@ DECIDING = ["documents_compared", "core_searches"]
 SCRUB = "! Sensitive line SCRUBBED by netconan"
 
 
-LEAD_CTX = ['"', "'", "{", ":", 'something " ', "something ' ", "something { ", "something : ", "[", "("]
+LEAD_CTX = ['"', "'", "{", ":", 'something " ', "something ' ", "something { ", "something : ", "[", "(",
+            # a statement quoted inside another command (a description, a remark, a negation, a template action)
+            "description ", "remark ", "no ", "do ", "! ", "# ", "description \"", "remark: "]
 TAIL_CTX = ['"', "'", "}", '" something', "' something", "} something", ";", ",", "]"]
 
 
@@ -182,9 +184,14 @@ def make_texts(case):
             # form feed, file/group/record separator, NEL, line/paragraph separator, no-break space)
             "xsep": (srng.choice(["\x0b", "\x0c", "\x1c", "\x1d", "\x1e", "\x85", "\u2028", "\u2029", "\xa0", "\t"]), srng.randrange(6))
             if srng.random() < 0.12 else None,
-            "special": srng.choice([None] * 7 + ["short", "dollar-word", "ctxsub", "recur-user"]),
+            "special": srng.choice([None] * 7 + ["short", "dollar-word", "ctxsub", "recur-user", "colon-octets"]),
             "sp_seed": srng.getrandbits(32),
         })
+    # a form that writes ':' right after the value (community-map NAME:100) makes ':' a terminator for every secret of the document
+    if any("}:" in S.BY_ID[ln["form"]]["tpl"] for ln in spec):
+        for st in struct:
+            if st["special"] == "colon-octets":
+                st["special"] = None
     # line terminators: mostly LF; some documents use CRLF, some end without a final newline
     eol_doc = srng.choice(["\n", "\n", "\n", "\r\n"])
     for st in struct:
@@ -314,6 +321,14 @@ def _special_text(st, form, vi, vr, used):
         else:
             t = r.choice(S._NONHEX) + "".join(r.choice(_ALNUM) for _ in range(n - 1))
         cores = []
+    elif kind == "colon-octets" and not form["plain"]:
+        # AA:BB:CC... (a localized SNMPv3 key, a MAC-like token): still clear text to netconan, as is its twin with one non-hex letter
+        n = random.Random(st["sp_seed"]).choice([2, 6, 16, 20])
+        octs = ["%02x" % r.randrange(256) for _ in range(n)]
+        if vi == 1:
+            octs[r.randrange(n)] = r.choice("0123456789abcdef") + r.choice("ghkmz")
+        t = ":".join(octs)
+        cores = [t] if n >= 6 else []
     elif kind == "recur-user" and "{u}" in form["tpl"]:
         t = _uword(st) if vi == 0 else None
         cores = []
